@@ -32,6 +32,20 @@
    kind = "legacyset" {scope, full, images, claimed}  claimed = cfgs of every tokenizer of the scope whose
                       is_legacy_equivalent() is True; images = cfgs of from_legacy(m) for the three modes
 
+   kind = "use"       {src, cfg, res, name, hash, b64, uses, n_used_ok, name_used, hash_used, b64_used,
+                       twin_eq, twin_name, twin_hash, load_res, load_eq, load_name}
+                      HISTORY of one tokenizer object: name / hash() / hash_b64() when fresh, then it tokenizes a
+                      solved, a targeted and a plain maze (to_tokens and maze.as_tokens; outcomes in `uses`), then
+                      name / hash again; twin = an equal tokenizer built AFTER the use; load = the USED tokenizer
+                      serialised to JSON text and loaded
+   kind = "history"   {res, calls, images, before_n, before_images, after_n, after_images, same_members,
+                       after_missing, after_extra, after_distinct}
+                      HISTORY of the enumeration inside one process: get_all_tokenizers() observed, then every public
+                      helper of all_tokenizers.py that consumes it is called (calls = [{call, res, ...}]), then it is
+                      observed again: size, membership of the from_legacy images (by ==), same_members = the list is
+                      still the same sequence of objects; otherwise its name set is compared with the spec product
+                      again (after_missing / after_extra / after_distinct, -1 = not needed)
+
    Layer P = the statement (names below without prefix).  Layer M ("M:"): facts of the MODEL that the
    statement does not demand -- hash() of a single ELEMENT (the statement speaks of tokenizers), the
    identity of the legacy images, the size of the unvalidated parameter space. *)
@@ -116,8 +130,33 @@ LegacySetClauses(r) ==
   \cup Flag(r.full => Distinct(r.claimed), "enum_config_twice")
   \cup Flag(im = LegacyEquivalent, "M:legacy_image_differs_from_model")
 
+\* identity must not depend on what the object has been used for
+UseClauses(r) ==
+  IF r.res # "ok" THEN {}                                  \* not constructible: judged by the "tok" record of the same configuration
+  ELSE IF ~IsTokRaw(r.cfg) THEN {"config_outside_parameter_space"}
+  ELSE Flag(r.name = TokName(r.cfg), "name_differs_from_grammar")
+       \cup Flag(r.name_used = r.name, "name_changed_by_use")
+       \cup Flag(r.hash_used = r.hash /\ r.b64_used = r.b64, "hash_changed_by_use")
+       \cup Flag(r.twin_eq /\ r.twin_name = r.name_used /\ r.twin_hash = r.hash_used, "equal_tokenizers_differ_after_use")
+       \cup (IF r.load_res # "ok" THEN {"load_raises"}
+             ELSE Flag(r.load_eq, "loaded_not_equal") \cup Flag(r.load_name = r.name_used, "loaded_name_differs_after_use"))
+
+\* the enumeration must not depend on which of its consumers ran before in the process
+HistoryClauses(r) ==
+  IF r.res # "ok" THEN {"enumeration_raises"}
+  ELSE Flag(r.before_n = PredictedFull, "space_size_not_predicted")
+       \cup Flag(/\ r.after_n = r.before_n
+                 /\ r.after_images = r.before_images
+                 /\ (r.same_members \/ (r.after_missing <= 0 /\ r.after_extra <= 0 /\ r.after_distinct = r.after_n)),
+                 "enumeration_changed_by_use")
+       \cup Flag(\A i \in 1..Len(r.images) :
+                   (IsTokRaw(r.images[i]) /\ TokValid(r.images[i])) => (i <= Len(r.after_images) /\ r.after_images[i] /\ r.before_images[i]),
+                 "enum_missing_valid_config")
+
 Clauses(r) ==
   CASE r.kind = "enum" -> EnumClauses(r)
+    [] r.kind = "use" -> UseClauses(r)
+    [] r.kind = "history" -> HistoryClauses(r)
     [] r.kind = "raw" -> RawClauses(r)
     [] r.kind = "rawcount" -> Flag(r.n = Cardinality(RawOf(r.K)), "M:raw_parameter_space_differs")
     [] r.kind = "untyped" -> {"config_outside_parameter_space"}
